@@ -1,0 +1,13 @@
+//go:build verif
+// +build verif
+
+package fastgo
+
+import "github.com/intel/fastgo/internal/cpu"
+
+// VerifArchLevel reports the acceleration level in effect, the level requested
+// through FASTGO_VERIF_ARCHLEVEL (-1 if none) and the highest level the host
+// can execute (verification hook, build tag `verif` only).
+func VerifArchLevel() (level, requested, capability int) {
+	return cpu.ArchLevel, cpu.VerifRequested, cpu.VerifCapability
+}
